@@ -11,16 +11,32 @@
    the pair is ordered by thread creation/joining or is the signal handler against the
    main thread on a volatile sig_atomic_t ([exempt], trusted: DESIGN.md section 3).
 
+   Heap objects (blocks, buffers, decoder/encoder states) are not protected by a mutex
+   while a task works on them but by OWNERSHIP: Gen/OwnProg.v (lib/gen_own.py) is the
+   hand-over skeleton of the worker / reader / writer threads of the three scenarios
+   (compression, expansion, the -cdf copy), regenerated on every run; [own_check]
+   (Lock/OwnCheck.v) enforces the discipline on it - no access through a pointer after
+   the object was enqueued / freed / copied away until it is acquired again, dequeue and
+   peek only under the queue's mutex, published objects (unord blocks, the input blocks
+   of expand.c) only under the scheduler mutex - and [own_sound] shows that then, in the
+   interleaving semantics of Lock/OwnLang.v with an explicit ownership state per object,
+   every access of every reachable configuration is made by the one thread entitled to
+   it (C12_heap_ownership, C12_no_heap_race, C12_heap_accesses_entitled).
+
    Partial (named, not silently dropped):
-   - tracked = every file-scope/external variable of the five files except the leaves
-     of expand.c:par, plus the heap classes of LockConfig.heap_locked (C12_tracked);
-     expand.c:par and all other heap classes are protected by ownership
-     (Lock/Ownership.v: discipline stated and proved exclusive on an abstract model;
-     that the code follows it is not proved - the check lists the unlocked accesses);
+   - tracked (lockset part) = every file-scope/external variable of the five files except
+     the leaves of expand.c:par, plus the heap classes of LockConfig.heap_locked
+     (C12_tracked); expand.c:par is protected by the parse_token hand-over, not proved;
+   - heap part: abstractions of the translator (its docstring and DESIGN.md): objects
+     reached through fields of other modules' structs (struct bitstream: the reference
+     counted input buffer of expand.c between attach() and detach()), memory LIFETIME of
+     published objects (complete/legitimate, ref_count) and pointer retention by the
+     codec functions of other modules are outside the skeleton;
    - the create/join ordering itself ([exempt], [Join true] marking) is trusted;
    - the tie to the C text is the translator lib/gen_lock.py (trusted, cross-checked). *)
 From LBZ Require Import Lock.LockLang Lock.Lockset Lock.LocksetSound Lock.LockConfig Lock.LockCheck
                         Lock.LockExamples Lock.Ownership Gen.LockProg.
+From LBZ Require Lock.OwnLang Lock.OwnCheck Lock.OwnSound Lock.OwnProgCheck Lock.OwnExamples Gen.OwnProg.
 
 (* soundness of the analysis, once and for all programs and class tables *)
 Theorem lockset_sound :
@@ -62,10 +78,60 @@ Proof. exact untracked_globals_are_par. Qed.
 Theorem C12_scenarios : map fst (cl_scenarios LockConfig.classes) = ["copy"; "schedule"]%string.
 Proof. exact scenarios_present. Qed.
 
-(* heap objects, abstract ownership model (partial: not tied to the C text) *)
+(* ---- heap objects: ownership ---- *)
+
+(* soundness of the ownership checker, once and for all skeletons: every access of every
+   reachable configuration is made by a thread that holds the object, or owns the mutex
+   of the queue it is linked into / under which it is published *)
+Theorem C12_ownership_sound :
+  forall p, OwnCheck.own_check p = true ->
+  forall c, OwnLang.reachable p c ->
+  forall i t o, nth_error (OwnLang.threads c) i = Some t ->
+    OwnLang.about_to_access t (OwnLang.heap c) o -> OwnLang.may_access p c i o.
+Proof. exact OwnSound.own_sound. Qed.
+
+(* entitlement is exclusive *)
+Theorem C12_ownership_exclusive :
+  forall p c i j o, OwnLang.may_access p c i o -> OwnLang.may_access p c j o -> i = j.
+Proof. exact OwnSound.may_access_exclusive. Qed.
+
+(* the regenerated hand-over skeleton of the current source passes (by computation: an
+   access after enqueue / free / sink_write_buffer, a dequeue or peek outside the mutex, a
+   published object touched without the scheduler mutex makes this fail) *)
+Theorem C12_heap_ownership : OwnCheck.own_check_all OwnProg.scenarios = true.
+Proof. exact OwnProgCheck.own_check_program. Qed.
+
+(* the scenarios and thread bodies that were checked *)
+Theorem C12_heap_threads :
+  OwnProgCheck.thread_table =
+  [("compression", [("worker_thread_proc", true); ("source_thread_proc", false); ("sink_thread_proc", false)]);
+   ("expansion", [("worker_thread_proc", true); ("source_thread_proc", false); ("sink_thread_proc", false)]);
+   ("pseudo_process", [("source_thread_proc", false); ("sink_thread_proc", false)])]%string.
+Proof. exact OwnProgCheck.thread_table_expected. Qed.
+
+Theorem C12_heap_accesses_entitled :
+  forall name p, In (name, p) OwnProg.scenarios ->
+  forall c, OwnLang.reachable p c ->
+  forall i t o, nth_error (OwnLang.threads c) i = Some t ->
+    OwnLang.about_to_access t (OwnLang.heap c) o -> OwnLang.may_access p c i o.
+Proof. exact OwnProgCheck.program_accesses_entitled. Qed.
+
+(* no two threads are ever about to touch the same heap object *)
+Theorem C12_no_heap_race :
+  forall name p, In (name, p) OwnProg.scenarios ->
+  forall c, OwnLang.reachable p c -> ~ OwnLang.heap_race c.
+Proof. exact OwnProgCheck.program_no_heap_race. Qed.
+
+(* the abstract model of Lock/Ownership.v (one mutex, one queue) and its exclusiveness;
+   its [may_access] is the projection of the one above *)
 Theorem C12_ownership_partial :
   forall s t u o, may_access s t o -> may_access s u o -> t = u.
 Proof. exact ownership_exclusive. Qed.
+
+Theorem C12_ownership_model_instance :
+  forall p c m q t o, OwnLang.qlock p q = Some m ->
+  may_access (OwnExamples.proj c m q) t o -> OwnLang.may_access p c t o.
+Proof. exact OwnExamples.ownership_model_instance. Qed.
 
 (* non-vacuity: [race] is reachable for a program the checker rejects, and a program
    with the lock around the same accesses is accepted *)
@@ -78,3 +144,22 @@ Proof. exact racy_has_race. Qed.
 
 Example C12_example_locked_accepted : check locked ex_classes = true.
 Proof. exact locked_accepted. Qed.
+
+(* heap part: the seeded defect in miniature (access after enqueue) is rejected, an
+   interleaving reaches a configuration where producer and consumer are about to touch the
+   same object and the producer is not entitled; with the access before the hand-over the
+   skeleton is accepted *)
+Example C12_example_handover_racy_rejected : OwnCheck.own_check OwnExamples.racy = false.
+Proof. exact OwnExamples.racy_rejected. Qed.
+
+Example C12_example_heap_race_exists :
+  exists c, OwnLang.reachable OwnExamples.racy c /\ OwnLang.heap_race c.
+Proof. exact OwnExamples.racy_has_race. Qed.
+
+Example C12_example_not_entitled :
+  exists c t o, OwnLang.reachable OwnExamples.racy c /\ nth_error (OwnLang.threads c) 0 = Some t /\
+                OwnLang.about_to_access t (OwnLang.heap c) o /\ ~ OwnLang.may_access OwnExamples.racy c 0 o.
+Proof. exact OwnExamples.racy_not_entitled. Qed.
+
+Example C12_example_handover_accepted : OwnCheck.own_check OwnExamples.handover_ok = true.
+Proof. exact OwnExamples.handover_accepted. Qed.
